@@ -302,6 +302,12 @@ def _exact_fingerprint(v, text):
     import hashlib
     if v is text:
         return True, "the text itself"
+    if isinstance(v, A.ABytes):
+        if v.src is not text:
+            return False, "the bytes compared are not those of the whole text"
+        if v.errors in ("ignore", "replace"):
+            return False, "the text is encoded with a lossy error handler"
+        return True, f"the {v.codec} encoding of the text itself"
     if isinstance(v, A.ADigest):
         whole = len(v.data) == 1 and isinstance(v.data[0], A.ABytes) and v.data[0].src is text
         full = v.lo in (0, None) and v.hi is None and v.step is None
@@ -384,6 +390,8 @@ def lifecycle(ctx: Ctx):
                     newfn[k] = o
         served = r.get("served")
         lazy = False
+        if any(e[0] == "exec" and e[4] for e in r.get("settle_log", [])):
+            newfn = {}          # (objects in the snapshot were completed by the call that followed)
         if not newfn and isinstance(served, A.Opaque) and served.tag == "compiled-function" and not any(
                 served is p_ for kk, (vv, _cc) in r["before"].items() for p_ in _reach(vv)):
             # the text is loaded by the first call rather than by recompile: what matters is the function that call runs
@@ -437,7 +445,7 @@ def lifecycle(ctx: Ctx):
         involved = 0
         for t in cmps:
             for side in (t[1], t[2]):
-                of_new = side is T1 or (isinstance(side, A.ADigest) and any(isinstance(d_, A.ABytes) and d_.src is T1 for d_ in side.data))
+                of_new = side is T1 or (isinstance(side, A.ABytes) and side.src is T1) or (isinstance(side, A.ADigest) and any(isinstance(d_, A.ABytes) and d_.src is T1 for d_ in side.data))
                 if of_new:
                     involved += 1
                     okx, why = _exact_fingerprint(side, T1)
@@ -590,6 +598,8 @@ def call_semantics(ctx: Ctx):
     for r in runs:
         calls = [e for e in r["log"] if e[0] == "call"]
         raising = any("compiled function raises" in a and a.endswith("=True") for a in r["assume"])
+        if any(a.endswith("=True") and ("raises at" in a or "returns None at" in a) and "compiled function raises" not in a for a in r["assume"]):
+            continue        # a step of a deferred load fails inside the call: not a run of the compiled function
         stores = [t for t in r["trace"] if t[0] == "store" and t[1] is r["self"]]
         changed = _changed(r["before"], r["after"])
         if stores or changed:
